@@ -186,6 +186,13 @@ def model_driver(pid):
         # dependencies: every .vo under coq (cheap stat)
         newest = max([os.path.getmtime(ext_v), os.path.getmtime(drv), os.path.getmtime(os.path.join(VERIF, "ocaml", "conv.ml"))] +
                      [os.path.getmtime(os.path.join(r, f)) for r, _, fs in os.walk(COQ) for f in fs if f.endswith(".vo")] or [0])
+        deps = re.findall(r"\b([A-Z]\w*(?:\.\w+)+)\b", re.sub(r"\(\*.*?\*\)", "", open(ext_v).read().split("Require Import ExtrOcamlBasic")[0], flags=re.S))
+        tg = [x.replace(".", "/") + ".vo" for x in deps]
+        if tg:
+            coq_makefile()
+            sh(["timeout", "900", "make", "-j%d" % NCPU, "-k"] + tg, cwd=COQ, timeout=930)
+        newest = max([os.path.getmtime(ext_v), os.path.getmtime(drv), os.path.getmtime(os.path.join(VERIF, "ocaml", "conv.ml"))] +
+                     [os.path.getmtime(os.path.join(COQ, t)) for t in tg if os.path.exists(os.path.join(COQ, t))])
         if os.path.exists(exe) and os.path.getmtime(exe) >= newest:
             return exe
         rc, out = sh(["timeout", "300", "coqc", "-Q", COQ, "LV", ext_v], cwd=d, timeout=330)
@@ -431,3 +438,46 @@ def diff_report(ctx, cases, impl_out, model_out, describe, key_prefix, monitor=N
         if impl_out[i] != model_out[i]:
             dis.append(i)
     return dis
+
+
+def judge(ctx, pid, label, cases, out_i, out_m, dis, monitor, describe, harness, corr_name, monitor_all=True, max_per_cat=1, max_cats=8):
+    """Shared verdict logic (DESIGN section 2, step 7).
+    dis = indices where implementation and model disagree.  monitor(case, impl_line) returns None or the
+    clause of the property that fails.  Every disagreement is a broken correspondence; the monitor decides
+    whether a concrete failing input can be attached (one replay per distinct failing clause, shortest input)."""
+    n = min(len(cases), len(out_i), len(out_m))
+    cats = {}
+    unexplained = []
+    disset = set(dis)
+    for i in dis:
+        why = monitor(cases[i], out_i[i])
+        if why:
+            k = re.sub(r"[0-9]+|b'.*?'|b\".*?\"", "#", why)[:60]
+            if k not in cats or len(cases[i]) < len(cases[cats[k][0]]):
+                cats[k] = (i, why)
+        else:
+            unexplained.append(i)
+    if monitor_all:
+        for i in range(n):
+            if i not in disset and out_m[i] != "ORACLE":
+                why = monitor(cases[i], out_i[i])
+                if why:
+                    k = "M:" + re.sub(r"[0-9]+|b'.*?'|b\".*?\"", "#", why)[:60]
+                    if k not in cats or len(cases[i]) < len(cases[cats[k][0]]):
+                        cats[k] = (i, why)
+    found = bool(cats)
+    for k, (i, why) in sorted(cats.items(), key=lambda kv: len(cases[kv[1][0]]))[:max_cats]:
+        ctx.violate("%s:%s" % (label, k), "%s fails on the implementation%s: %s; input %s" %
+                    (pid, " (the faithful model agrees with the code here)" if k.startswith("M:") else "", why, describe(cases[i])),
+                    dict(kind="monitor", case=cases[i], input=describe(cases[i]), impl=out_i[i], model=out_m[i] if i < len(out_m) else None,
+                         why=why, harness=harness))
+    if unexplained and not found:
+        i = min(unexplained, key=lambda i: len(cases[i]))
+        ctx.violate(label + "-correspondence",
+                    "the code no longer computes the model's function (correspondence %s broken) on %d inputs, e.g. %s: impl=%s model=%s"
+                    % (corr_name, len(unexplained), describe(cases[i]), out_i[i][:200], out_m[i][:200]),
+                    dict(kind="correspondence", correspondence=corr_name, case=cases[i], input=describe(cases[i]), impl=out_i[i],
+                         model=out_m[i], disagreements=len(dis), harness=harness), no_input=True)
+    elif unexplained:
+        ctx.cov["correspondence"].setdefault(label, {})["disagreements_without_failing_clause"] = len(unexplained)
+    return found
